@@ -137,9 +137,23 @@ func newSample(vals []float64, alpha float64) *benchmath.Sample {
 	return benchmath.NewSample(append([]float64(nil), vals...), &benchmath.Thresholds{CompareAlpha: alpha})
 }
 
-// extreme (VERIF_C13_EXTREME=1) lifts the magnitude limits of the generators: values whose squares
-// or differences overflow/underflow float64. Off by default: see notes/C13.md (findings X1, X2).
+// Extreme magnitudes (values whose differences, squares or fourth powers leave the float64 range)
+// break go-moremath arithmetic that benchmath calls: findings X1-X3 of notes/C13.md. They are
+// exercised by a separate small family (xFamily, always on) whose cases lie well inside the
+// classes the driver tags with kf=X1/X2/X3; the main families keep AssumeNormal inside 2^±200.
+// VERIF_C13_EXTREME=1 lifts that limit in the main families too (wider search).
 var extreme = os.Getenv("VERIF_C13_EXTREME") == "1"
+
+// panicCase reports a panic of the real code on a case: the observable is "panic" (the model says
+// "panic" only where the external call it takes as data panicked), the specification demands
+// panic=0. No `crash` line is printed: check.py cannot attach a known-finding tag to one.
+func panicCase(head string, tag string, e any) {
+	hx.Printf("case %d %s panic=1 ptext=%s tag=%s\n", id, head, hx.HexS(fmt.Sprint(e)), tag)
+	hx.Printf("info %d panic: %v\n", id, e)
+	hx.Printf("obs %d panic\n", id)
+	hx.Printf("sobs %d panic=1\n", id)
+	id++
+}
 
 // moderate reports whether every non-zero magnitude lies in [2^-200, 2^200]: variances and their
 // squares, as formed by moremath's MeanCI / Welch t-test, then stay inside the float64 range, also
@@ -177,14 +191,12 @@ func needTable(conf float64) string {
 // ---------------------------------------------------------------- cases
 
 func sumCase(a string, vals []float64, conf float64, tag string) {
-	if a == "normal" && !extreme && !moderate(vals) {
+	if a == "normal" && !extreme && !strings.Contains(tag, "xfam") && !moderate(vals) {
 		return
 	}
 	defer func() {
 		if e := recover(); e != nil {
-			hx.Printf("case %d kind=crash what=sum a=%s vals=%s conf=%s tag=%s\n", id, a, list(vals), raw(conf), tag)
-			hx.Printf("crash %d %v\n", id, e)
-			id++
+			panicCase(fmt.Sprintf("kind=sum a=%s vals=%s conf=%s", a, list(vals), raw(conf)), tag, e)
 		}
 	}()
 	s := newSample(vals, 0.05)
@@ -247,14 +259,23 @@ func safeShift(r *hx.Rand, a, b []float64) int {
 			maxE = e
 		}
 	}
-	k := 1 + r.Intn(20)
-	switch {
-	case minE < -900:
-		return k
-	case maxE > 900:
-		return -k
-	case r.Bool():
-		return -k
+	// x = f·2^e with 1/2 ≤ |f| < 1: x·2^k stays finite for e+k ≤ 1024 and exact (normal) for e+k ≥ -1021
+	lo, hi := -1021-minE, 1024-maxE
+	if minE == -1080 {
+		lo = 1
+	}
+	if lo < -20 {
+		lo = -20
+	}
+	if hi > 20 {
+		hi = 20
+	}
+	if lo > hi {
+		return 0
+	}
+	k := lo + r.Intn(hi-lo+1)
+	if k == 0 && hi > 0 {
+		k = hi
 	}
 	return k
 }
@@ -267,44 +288,65 @@ func pOrErrU(x1, x2 []float64, alt stats.LocationHypothesis) string {
 	return raw(res.P)
 }
 
-func cmpCase(r *hx.Rand, a string, v1, v2 []float64, alpha float64, alphaEqP bool, tag string) {
-	if a == "normal" && !extreme && !(moderate(v1) && moderate(v2)) {
-		return
-	}
+// safeP runs one comparison; a panic of the real code becomes the text "panic".
+func safeP(f func() benchmath.Comparison) (p string) {
 	defer func() {
 		if e := recover(); e != nil {
-			hx.Printf("case %d kind=crash what=cmp a=%s v1=%s v2=%s alpha=%s tag=%s\n", id, a, list(v1), list(v2), raw(alpha), tag)
-			hx.Printf("crash %d %v\n", id, e)
-			id++
+			p = "panic"
+		}
+	}()
+	return raw(f().P)
+}
+
+// welch captures moremath's Welch t-test on the sorted values: p bits, an error tag, or "panic".
+func welch(x1, x2 []float64) (out string) {
+	defer func() {
+		if e := recover(); e != nil {
+			out = "panic"
+		}
+	}()
+	t, err := stats.TwoSampleWelchTTest(stats.Sample{Xs: x1, Sorted: true}, stats.Sample{Xs: x2, Sorted: true}, stats.LocationDiffers)
+	if err != nil {
+		return errTag(err)
+	}
+	return raw(t.P)
+}
+
+func cmpCase(r *hx.Rand, a string, v1, v2 []float64, alpha float64, alphaEqP bool, tag string) {
+	if a == "normal" && !extreme && !strings.Contains(tag, "xfam") && !(moderate(v1) && moderate(v2)) {
+		return
+	}
+	ext := ""
+	defer func() {
+		if e := recover(); e != nil {
+			panicCase(fmt.Sprintf("kind=cmp a=%s v1=%s v2=%s alpha=%s%s", a, list(v1), list(v2), raw(alpha), ext), tag, e)
 		}
 	}()
 	asm := assumptions[a]
 	if alphaEqP {
 		// threshold boundary: alpha is exactly the p-value this comparison yields
-		alpha = asm.Compare(newSample(v1, 0.05), newSample(v2, 0.05)).P
-		if math.IsNaN(alpha) {
-			alpha = 0.05
+		if b, err := strconv.ParseUint(safeP(func() benchmath.Comparison {
+			return asm.Compare(newSample(v1, 0.05), newSample(v2, 0.05))
+		}), 16, 64); err == nil && !math.IsNaN(math.Float64frombits(b)) {
+			alpha = math.Float64frombits(b)
 		}
 	}
 	s1, s2 := newSample(v1, alpha), newSample(v2, 0.75) // Alpha must come from the FIRST sample
-	ext := ""
 	switch a {
 	case "nothing":
 		ext = fmt.Sprintf(" ud=%s ul1=%s ul2=%s", pOrErrU(s1.Values, s2.Values, stats.LocationDiffers),
 			pOrErrU(s1.Values, s2.Values, stats.LocationLess), pOrErrU(s2.Values, s1.Values, stats.LocationLess))
 	case "normal":
-		t, err := stats.TwoSampleWelchTTest(stats.Sample{Xs: s1.Values, Sorted: true}, stats.Sample{Xs: s2.Values, Sorted: true}, stats.LocationDiffers)
-		if err != nil {
-			ext = " wp=" + errTag(err)
-		} else {
-			ext = " wp=" + raw(t.P)
-		}
+		ext = " wp=" + welch(s1.Values, s2.Values)
 	}
 	c := asm.Compare(s1, s2)
-	c21 := asm.Compare(newSample(v2, alpha), newSample(v1, alpha))
-	csh := asm.Compare(newSample(shuffle(r, v1), alpha), newSample(shuffle(r, v2), alpha))
+	p21 := safeP(func() benchmath.Comparison { return asm.Compare(newSample(v2, alpha), newSample(v1, alpha)) })
+	sh1, sh2 := shuffle(r, v1), shuffle(r, v2)
+	psh := safeP(func() benchmath.Comparison { return asm.Compare(newSample(sh1, alpha), newSample(sh2, alpha)) })
 	k := safeShift(r, v1, v2)
-	csc := asm.Compare(newSample(scaleAll(v1, k), alpha), newSample(scaleAll(v2, k), alpha))
+	psc := safeP(func() benchmath.Comparison {
+		return asm.Compare(newSample(scaleAll(v1, k), alpha), newSample(scaleAll(v2, k), alpha))
+	})
 	old := asm.Summary(s1, 0.95).Center
 	new := asm.Summary(s2, 0.95).Center
 	delta := c.FormatDelta(old, new)
@@ -316,7 +358,7 @@ func cmpCase(r *hx.Rand, a string, v1, v2 []float64, alpha float64, alphaEqP boo
 	}
 	hx.Printf("case %d kind=cmp a=%s v1=%s v2=%s alpha=%s%s old=%s new=%s ip=%s in1=%d in2=%d ialpha=%s iwarn=%s ip21=%s ipsh=%s ipsc=%s k=%d idelta=%s istr=%s tag=%s\n",
 		id, a, list(v1), list(v2), raw(alpha), ext, raw(old), raw(new), raw(c.P), c.N1, c.N2, raw(c.Alpha), wt,
-		raw(c21.P), raw(csh.P), raw(csc.P), k, hx.HexS(delta), hx.HexS(str), tag)
+		p21, psh, psc, k, hx.HexS(delta), hx.HexS(str), tag)
 	hx.Printf("obs %d p=%s n1=%d n2=%d alpha=%s warn=%s delta=%s str=%s\n", id, canon(c.P), c.N1, c.N2, canon(c.Alpha), wt, hx.HexS(delta), hx.HexS(str))
 	hx.Printf("sobs %d n=ok prange=ok sym=ok shuf=ok scale=ok exact=%s alpha=ok warn=ok shown=ok delta=ok str=ok\n", id, exact)
 	id++
@@ -501,7 +543,11 @@ func second(r *hx.Rand, v1 []float64, n int) ([]float64, string) {
 		xs := make([]float64, n)
 		f := 1 + 0.2*(r.Float()-0.5)
 		for i := range xs {
-			xs[i] = v1[r.Intn(len(v1))] * f
+			x := v1[r.Intn(len(v1))]
+			xs[i] = x * f
+			if math.IsInf(xs[i], 0) {
+				xs[i] = x // samples hold finite values only
+			}
 		}
 		return xs, "overlap"
 	}
@@ -586,6 +632,56 @@ func renderCases(r *hx.Rand, n int) {
 	}
 }
 
+// xFamily: finite samples of extreme magnitude, well inside the classes of the findings X1-X3.
+func xFamily(r *hx.Rand, n int) {
+	mag := func(lo, hi int) float64 { return math.Ldexp(1+r.Float(), lo+r.Intn(hi-lo+1)) }
+	for i := 0; i < n; i++ {
+		// X1: the two values around the median position have opposite signs and magnitude >= 2^1023,
+		// so b-a overflows in Quantile's a + f*(b-a)
+		nn := 2 + r.Intn(8)
+		xs := make([]float64, nn)
+		for j := range xs {
+			xs[j] = mag(1023, 1023)
+			if j < (nn+1)/2 {
+				xs[j] = -xs[j]
+			}
+			if r.Chance(1, 6) {
+				xs[j] = math.Copysign(math.MaxFloat64, xs[j])
+			}
+		}
+		xs = shuffle(r, xs)
+		conf := pickConf(r)
+		sumCase("nothing", xs, conf, "nothing+xfam+x1")
+		sumCase("exact", xs, conf, "exact+xfam+x1")
+		// X2: spread >= 2^520: the squared deviations overflow in Variance
+		nn = 2 + r.Intn(9)
+		ys := make([]float64, nn)
+		for j := range ys {
+			ys[j] = mag(520, 1000)
+			if r.Chance(1, 3) {
+				ys[j] = -ys[j]
+			}
+		}
+		sumCase("normal", ys, conf, "normal+xfam+x2")
+		// X3: variances whose squares overflow (|x| >= 2^300) or underflow to 0 (|x| <= 2^-300)
+		n1, n2 := 2+r.Intn(7), 2+r.Intn(7)
+		lo, hi := 300, 1000
+		if r.Bool() {
+			lo, hi = -1000, -300
+		}
+		v1 := make([]float64, n1)
+		v2 := make([]float64, n2)
+		for j := range v1 {
+			v1[j] = mag(lo, hi)
+		}
+		for j := range v2 {
+			v2[j] = mag(lo, hi)
+		}
+		cmpCase(r, "normal", v1, v2, pickAlpha(r), false, "normal+xfam+x3")
+		cmpCase(r, "nothing", v1, v2, pickAlpha(r), false, "nothing+xfam+x3")
+	}
+}
+
 func main() {
 	defer hx.Flush()
 	r := hx.NewRand(13)
@@ -631,6 +727,8 @@ func main() {
 			sumCase(a, xs, 0.95, a+"+corpus")
 		}
 	}
+
+	xFamily(hx.NewRand(1313), hx.N(40, 400))
 
 	renderCases(r, hx.N(4000, 40000))
 
